@@ -408,13 +408,24 @@ class _Watchdog(threading.Thread):
         main_id = threading.main_thread().ident
         while not self.stop:
             time.sleep(1.0)
-            if self.t0 is None or time.time() - self.t0 < 25:
+            if self.t0 is None or time.time() - self.t0 < 60:
                 continue
             frame = sys._current_frames().get(main_id)
             stack = ''.join(traceback.format_stack(frame)) if frame else ''
-            pids = list(_S['state'].get('pids', []))
-            dead = pids and all(proc_state(p) in ('Z', 'gone') for p in pids)
-            if dead and 'pickle_load' in stack or dead and '_send' in stack:
+            # the helper the main thread is talking to right now (not the ones the cell killed)
+            cur_dead = False
+            try:
+                from jedi.api.environment import get_cached_default_environment
+                sub = get_cached_default_environment()._subprocess
+                # the finalizer registered by _get_process() holds the Popen object; looking
+                # there never starts a helper (calling _get_process() from here could)
+                info = sub._cleanup_callable.peek() if sub is not None and \
+                    hasattr(sub._cleanup_callable, 'peek') else None
+                cur = info[2][0].pid if info else None
+                cur_dead = cur is not None and proc_state(cur) in ('Z', 'gone')
+            except Exception:
+                cur_dead = False
+            if cur_dead and ('pickle_load' in stack or '_send' in stack):
                 side = os.path.join(os.environ.get('VERIF_RUN_DIR', '/var/tmp'),
                                     'c14-hang-%d.json' % os.getpid())
                 with open(side, 'w') as f:
